@@ -20,6 +20,12 @@ import (
 // the end of the scan) never has to wait longer than this for a reader to leave
 const pollTimeout = 100 * time.Millisecond
 
+// blockTimeout is the time after which the kernel hands a partially filled block of
+// the packet ring over to us. A packet is not visible before its block is retired, so
+// with the library default (64ms) every reply that arrives in the last 64ms of
+// the exit delay is still in the ring when the scan stops listening and is lost
+const blockTimeout = 5 * time.Millisecond
+
 type Source struct {
 	handle   *afp.TPacket
 	linkType layers.LinkType
@@ -42,7 +48,8 @@ func (timeoutError) Temporary() bool { return true }
 var _ packet.ReadWriter = (*Source)(nil)
 
 func NewPacketSource(iface string, vpnMode bool) (*Source, error) {
-	handle, err := afp.NewTPacket(afp.SocketRaw, afp.OptInterface(iface), afp.OptPollTimeout(pollTimeout))
+	handle, err := afp.NewTPacket(afp.SocketRaw, afp.OptInterface(iface),
+		afp.OptPollTimeout(pollTimeout), afp.OptBlockTimeout(blockTimeout))
 	if err != nil {
 		return nil, err
 	}
